@@ -159,7 +159,14 @@ def main(argv=None):
     # 2. direct z3 queries (E2) ----------------------------------------------------------
     e2 = []
     if hasattr(prop, 'e2'):
-        for q in prop.e2(tier):
+        try:
+            queries = list(prop.e2(tier))
+        except ValueError as e:
+            # the object lifted from the live code is no longer a single character class: the
+            # all-Unicode inclusion cannot be posed; the E1 obligations still cover the behaviour
+            queries = [{'name': 'E2 extraction', 'status': 'inconclusive', 'detail': str(e)}]
+            notes.append('E2 query not posed: %s' % e)
+        for q in queries:
             e2.append(q)
             if q.get('status') == 'violated':
                 violations.append({'kind': 'e2', 'what': q})
@@ -271,10 +278,11 @@ def main(argv=None):
     if hasattr(prop, 'concrete_crosscheck'):
         n, fails = prop.concrete_crosscheck(tier, kf_params)
         validated += n
-        confirmed_fns = {o.fn for o in obs if o.role == 'main' and
-                         o.result.get('verdict') == 'confirmed'}
         for fn, a in fails:
-            if fn in confirmed_fns:
+            n = len(a[0]) if a and hasattr(a[0], '__len__') else None
+            same = [o for o in obs if o.role == 'main' and o.fn == fn and
+                    (o.params.get('N') == n or 'N' not in o.params)]
+            if same and all(o.result.get('verdict') == 'confirmed' for o in same):
                 harness_errors.append('concrete cross-check: %s%r fails although the solver '
                                       'confirmed the bound' % (fn, a))
 
@@ -352,14 +360,15 @@ def main(argv=None):
                                         len(harness_errors), wall))
     for n in notes:
         print('note:', n)
-    if harness_errors:
-        for h in harness_errors:
-            print('HARNESS-ERROR:', h, file=sys.stderr)
-        return 3
+    for h in harness_errors:
+        print('HARNESS-ERROR:', h, file=sys.stderr)
     if real_violations:
+        # a violation that was replayed concretely (and against the real tool) stands on its own
         for l in out_lines:
             print(l)
         return 1
+    if harness_errors:
+        return 3
     return 0
 
 
